@@ -142,7 +142,7 @@ def run_case(case):
             if sample is None and call["form"] == "message" and r.get("events"):
                 sample = {"rpc": call["rpc"], "client": kind, "server_event": {k: r["events"][0][k] for k in ("method", "requests")},
                           "returned": r.get("returned")}
-    return {"verdict": "violated" if viol else "held", "violations": viol[:20], "evaluations": counters.get("calls_judged", 0),
+    return {"verdict": "violated" if viol else "held", "violations": pipeline.diverse(viol, 40), "evaluations": counters.get("calls_judged", 0),
             "nontrivial_sigs": sorted(sigs), "counters": counters, "sample": sample or {}}
 
 
